@@ -167,6 +167,11 @@ func (s *storage) walkPack(verbose bool, packID int,
 	}
 	defer fh.Close()
 	name := fh.Name()
+	fi, err := fh.Stat()
+	if err != nil {
+		return err
+	}
+	fileSize := fi.Size()
 
 	var (
 		pos  int64
@@ -227,6 +232,15 @@ func (s *storage) walkPack(verbose bool, packID int,
 			if verbose {
 				log.Printf("found %s at %d", ref, pos)
 			}
+		}
+		if pos+1+int64(m)+int64(size) > fileSize {
+			// An append that was cut short (e.g. by a crash) left a header
+			// but not all of its bytes. Like a torn header, that is the
+			// end of the pack, not a blob.
+			if verbose {
+				log.Printf("found truncated entry at %d", pos)
+			}
+			break
 		}
 		if err = walker(packID, ref, pos+1+int64(m), size); err != nil {
 			return err
